@@ -31,11 +31,13 @@ Fixpoint sp_offer (m : mac) (hist : list (mac * option ip4)) : option ip4 :=
   end.
 
 (* "the probing MAC holds a different outstanding DHCP offer and the probed address lies in the home LAN"
-   (offer: the outstanding IPv4 offer of the probing MAC, if any) *)
+   (offer: the outstanding IPv4 offer of the probing MAC, if any).  The property gives these as NECESSARY
+   conditions; the reject is due under them except for the router's own address, where the reply would be
+   a forged router binding and is governed by the confinement clause instead. *)
 Definition sp_reject_cond (c : cfg) (offer : option ip4) (p : arp_pkt) : bool :=
   sp_is_probe p && negb (link_local (ptip p)) &&
   match offer with
-  | Some o => negb (o =? ptip p) && in_lan c (ptip p)
+  | Some o => negb (o =? ptip p) && in_lan c (ptip p) && negb (ptip p =? router_ip c)
   | None => false
   end.
 
